@@ -155,8 +155,8 @@ def tagRest (fx : Fixes) (st0 : NsStack) (value : Bytes) (valPfx : PfxData) (att
 
 theorem startTagItems_eq (fx : Fixes) (st : NsStack) (ns : Option Bytes) (value : Bytes) (valPfx : PfxData) (attrs : List OAttr) :
     startTagItems fx st ns value valPfx attrs =
-      ((nodeDefault st ns).1 ++ (tagRest fx (nodeDefault st ns).2 value valPfx attrs).1,
-       (tagRest fx (nodeDefault st ns).2 value valPfx attrs).2) := by
+      ((nodeDefault fx st ns).1 ++ (tagRest fx (nodeDefault fx st ns).2 value valPfx attrs).1,
+       (tagRest fx (nodeDefault fx st ns).2 value valPfx attrs).2) := by
   unfold startTagItems openItems tagRest
   split <;> simp [List.append_assoc]
 
@@ -170,17 +170,33 @@ theorem tagRest_run (fx : Fixes) (hn : fx.numbered = true) (hr : fx.reserved = t
   · exact h1
   · exact Run.append h1 (prefixData_run fx _ [] valPfx _ (mem_reservedOf_node valPfx attrs))
 
-theorem nodeDefault_cases (st : NsStack) (ns : Option Bytes) :
-    nodeDefault st ns = ([], st) ∨ ∃ u, nodeDefault st ns = ([Item.decl none u], (none, u) :: st) := by
-  cases ns with
-  | none => exact Or.inl rfl
-  | some u =>
-    by_cases h : findDefault st = some u
-    · exact Or.inl (by simp [nodeDefault, nsDefault, h])
-    · exact Or.inr ⟨u, by simp [nodeDefault, nsDefault, h]⟩
+theorem nsDefault_cases (st : NsStack) (u : Bytes) :
+    (nsDefault st u = ([], st) ∧ findDefault st = some u) ∨
+      (nsDefault st u = ([Item.decl none u], (none, u) :: st) ∧ findDefault st ≠ some u) := by
+  by_cases h : findDefault st = some u
+  · exact Or.inl ⟨by simp [nsDefault, h], h⟩
+  · exact Or.inr ⟨by simp [nsDefault, h], h⟩
 
-theorem nodeDefault_attrsOf (st : NsStack) (ns : Option Bytes) : attrsOf (nodeDefault st ns).1 = [] := by
-  rcases nodeDefault_cases st ns with h | ⟨u, h⟩ <;> simp [h, attrsOf]
+theorem nodeDefault_none (fx : Fixes) (st : NsStack) :
+    nodeDefault fx st none = if (fx.undeclare && defaultInScope st) = true then nsDefault st [] else ([], st) := rfl
+
+theorem nodeDefault_cases (fx : Fixes) (st : NsStack) (ns : Option Bytes) :
+    nodeDefault fx st ns = ([], st) ∨ ∃ u, nodeDefault fx st ns = ([Item.decl none u], (none, u) :: st) := by
+  cases ns with
+  | none =>
+    rw [nodeDefault_none]
+    split
+    · rcases nsDefault_cases st [] with h | h
+      · exact Or.inl h.1
+      · exact Or.inr ⟨[], h.1⟩
+    · exact Or.inl rfl
+  | some u =>
+    rcases nsDefault_cases st u with h | h
+    · exact Or.inl h.1
+    · exact Or.inr ⟨u, h.1⟩
+
+theorem nodeDefault_attrsOf (fx : Fixes) (st : NsStack) (ns : Option Bytes) : attrsOf (nodeDefault fx st ns).1 = [] := by
+  rcases nodeDefault_cases fx st ns with h | ⟨u, h⟩ <;> simp [h, attrsOf]
 
 /-- (a) no prefix is declared twice in the start tag, and the stack handed to the content is the declarations of the start tag
     on top of the inherited stack -/
@@ -189,16 +205,16 @@ theorem startTag_nodup (fx : Fixes) (hn : fx.numbered = true) (hr : fx.reserved 
     ((declared (startTagItems fx st ns value valPfx attrs).1).map (·.1)).Nodup ∧
       (startTagItems fx st ns value valPfx attrs).2 = (declared (startTagItems fx st ns value valPfx attrs).1).reverse ++ st := by
   rw [startTagItems_eq]
-  have run := tagRest_run fx hn hr (nodeDefault st ns).2 value valPfx attrs
+  have run := tagRest_run fx hn hr (nodeDefault fx st ns).2 value valPfx attrs
   have hinv := run.inv hK [] _ rfl ⟨by simp, by simp⟩
   have hstack := run.stack
   have hsome := run.declared_some
-  have hnd : ((declared (tagRest fx (nodeDefault st ns).2 value valPfx attrs).1).map (·.1)).Nodup := by
+  have hnd : ((declared (tagRest fx (nodeDefault fx st ns).2 value valPfx attrs).1).map (·.1)).Nodup := by
     have := hinv.1
     rw [List.append_nil, List.map_reverse, (List.reverse_perm _).nodup_iff] at this
     exact this
   simp only [declared_append]
-  rcases nodeDefault_cases st ns with h | ⟨u, h⟩
+  rcases nodeDefault_cases fx st ns with h | ⟨u, h⟩
   · rw [h] at hstack hnd hsome ⊢
     simp only [declared, List.nil_append]
     exact ⟨hnd, hstack⟩
